@@ -589,6 +589,8 @@ pub struct ModelFaults {
     pub init_fail_chains: Vec<i64>,
     /// Every initial position is NaN for these chains (all 500 initialisation attempts fail)
     pub init_invalid_chains: Vec<i64>,
+    /// The first k initial positions of a chain are NaN, later ones are valid: (chain, k)
+    pub init_invalid_first: Vec<(i64, u64)>,
 }
 
 pub struct VModel {
@@ -646,11 +648,17 @@ impl Model for VModel {
     ) -> anyhow::Result<()> {
         use rand::RngExt;
         let chain = crate::sched::current_chain();
-        *self.init_calls.lock().unwrap().entry(chain).or_default() += 1;
+        let call_no = {
+            let mut calls = self.init_calls.lock().unwrap();
+            let e = calls.entry(chain).or_default();
+            *e += 1;
+            *e
+        };
         if self.faults.init_fail_chains.contains(&chain) {
             anyhow::bail!("injected Model::init_position failure for chain {chain}");
         }
-        let invalid = self.faults.init_invalid_chains.contains(&chain);
+        let invalid = self.faults.init_invalid_chains.contains(&chain)
+            || self.faults.init_invalid_first.iter().any(|(c, k)| *c == chain && call_no <= *k);
         for p in position.iter_mut() {
             let u: f64 = rng.random();
             *p = if invalid { f64::NAN } else { (2.0 * u - 1.0) * self.init_scale };
